@@ -718,6 +718,8 @@ def host_getattr(interp, o, name):
             return fld_sgn0(o)
         if name in getattr(o.kind, "attrs", {}):
             return o.kind.attrs[name]
+        if hasattr(o.kind, "elem_getattr"):
+            return o.kind.elem_getattr(interp, o, name)
         raise Unsupported(f"attribute {name} of an abstract field element")
     if isinstance(o, FldKind):
         if name == "one":
